@@ -175,6 +175,14 @@ func (p *PreprocReader) Read(buf []byte) (int, error) {
 		}
 	}
 
+	// nothing buffered: an error that stopped the scan must be reported now,
+	// Read on the empty buffer would say io.EOF and end the copy without it
+	if p.buffer.Len() == 0 {
+		if err := p.Err(); err != nil {
+			return 0, err
+		}
+	}
+
 	return p.buffer.Read(buf)
 }
 
